@@ -60,7 +60,7 @@ Definition is_full (n : Z) (o : qobs) : bool :=
 (* one item of an op-0 line; returns (verdict code, tag) and diagnostics.  [g] is the transition
    graph of the line over the integer masses w_k (unit 1/D, D = 2^(e n)); c = cn/2^j is compared as
    the integer cn * D against (2^j) * accum *)
-Definition check_small_item (P : Z -> Q) (n : Z) (qbits : Z) (g : list (list (st * list st))) (e : Z) (exact : bool)
+Definition check_small_item (P : Z -> Q) (n : Z) (x : Z) (qbits : Z) (g : list (list (st * list st))) (e : Z) (exact : bool)
                             (c : Q) (o : qobs) : Z * Z * list Z :=
   if negb ((o_n o =? n) && (o_qbits o =? qbits)) then (V_MISMATCH, 1, [0])
   else if Qle_bool 1 c then (if is_full n o then (V_OK, 3, []) else (V_MISMATCH, 3, [1]))
@@ -69,6 +69,15 @@ Definition check_small_item (P : Z -> Q) (n : Z) (qbits : Z) (g : list (list (st
     let c' := inject_Z (Z.shiftl (Qnum c) (e * n)) in
     let eps := if exact then 0%Q else ieps_border in
     let outs := qci_small_set P eps n g sc c' in
+    (* for small n the deterministic model function [qci_small] (the one the theorems are about) is run
+       as well, on the same integer masses: its result must be one of the admissible outcomes *)
+    let det_ok := if 10 <? n then true else
+                  match qci_small (fun k => (sc * P k)%Q) n x c' with
+                  | Some r => existsb (fun t => (r_lo r =? r_lo t) && (r_hi r =? r_hi t) && Bool.eqb (r_amb r) (r_amb t)
+                                                && Qeq_bool (r_conf r) (sc * r_conf t)%Q) outs
+                  | None => false
+                  end in
+    if negb det_ok then (V_MALFORMED, 1, [8]) else
     let tag := Z.lor 1 (Z.lor (if exact then 64 else 0)
                (Z.lor (if 2 <=? o_hi o - o_lo o then 4 else 0)
                (Z.lor (if o_amb o then 8 else 0)
@@ -82,14 +91,14 @@ Definition check_small_item (P : Z -> Q) (n : Z) (qbits : Z) (g : list (list (st
           | [] => [2]
           end).
 
-Fixpoint run_small (P : Z -> Q) (n : Z) (qbits : Z) (g : list (list (st * list st))) (e : Z) (exact : bool)
+Fixpoint run_small (P : Z -> Q) (n : Z) (x : Z) (qbits : Z) (g : list (list (st * list st))) (e : Z) (exact : bool)
                    (items : list (Q * qobs)) (idx tag : Z) (border : bool) : list Z :=
   match items with
   | [] => verdict (if border then V_BORDERLINE else V_OK) tag (-1) []
   | (c, o) :: rest =>
-      let '(code, t, dg) := check_small_item P n qbits g e exact c o in
+      let '(code, t, dg) := check_small_item P n x qbits g e exact c o in
       if (code =? V_OK) || (code =? V_BORDERLINE)
-      then run_small P n qbits g e exact rest (idx + 1) (Z.lor tag t) (border || (code =? V_BORDERLINE))
+      then run_small P n x qbits g e exact rest (idx + 1) (Z.lor tag t) (border || (code =? V_BORDERLINE))
       else verdict code (Z.lor tag t) idx dg
   end.
 
@@ -109,7 +118,7 @@ Definition check_C11 (line : list Z) : list Z :=
               let ws := binom_weights n (Qnum q) (d - Qnum q) in
               let exact := exact_regime n q in
               match qci_graph (scaled_pmf n ws) (if exact then 0%Q else ieps_border) n (mode_candidates n q exact) with
-              | Some g => run_small (scaled_pmf n ws) n qb g e exact items 0 0 false
+              | Some g => run_small (scaled_pmf n ws) n (mode_x n q) qb g e exact items 0 0 false
               | None => verdict V_MALFORMED 0 (-1) [7]
               end
           | _ => verdict V_MALFORMED 0 (-1) []
